@@ -238,6 +238,41 @@ theorem C15_partial :
   obtain ⟨k, hk, h1, h2', h3⟩ := grover_table n M h2 h6 hM hq
   exact ⟨k, hk, kdefault_pos n M k hk, h2', h1, h3⟩
 
+/-! ## The listed defect that reaches C15 (finding `C15-or2xor-oracle`) -/
+
+/-- `a == 0 or a == 7` on three bits, as the optimizer sees it -/
+def wNames : List String := ["a.0", "a.1", "a.2"]
+def wExpr : BExp :=
+  .or [.and [.sym "a.0", .sym "a.1", .sym "a.2"],
+       .and [.not (.sym "a.0"), .not (.sym "a.1"), .not (.sym "a.2")]]
+
+/-- **Witness.** With the code's `transform_or2xor` (quirk on) the predicate with solution set
+{0, 7} is rewritten to one with solution set {0, 3, 4, 7}, and the non-solution 3 is read with
+exactly the probability of the solution 0 (1/4 each): "every solution is more likely than every
+non-solution" fails, and the solutions are found with probability 1/2, not above. -/
+theorem or2xor_oracle_witness :
+    solutionsOf wNames wExpr = [0, 7] ∧
+    solutionsOf wNames (or2xor { or2xorNoArity := true } wExpr) = [0, 3, 4, 7] ∧
+    predicateDist { or2xorNoArity := true } wNames wExpr 2 3
+      = predicateDist { or2xorNoArity := true } wNames wExpr 2 0 ∧
+    predicateDist { or2xorNoArity := true } wNames wExpr 2 0 = some (8192, 32768) := by
+  decide +kernel
+
+/-- the same input with the step repaired (quirk off): the solution set is kept and the
+non-solution 3 is strictly less likely than the solution 0 -/
+theorem or2xor_oracle_repaired :
+    solutionsOf wNames (or2xor Quirks.none wExpr) = [0, 7] ∧
+    predicateDist Quirks.none wNames wExpr 2 3 = some (256, 32768) ∧
+    predicateDist Quirks.none wNames wExpr 2 0 = some (15616, 32768) := by
+  decide +kernel
+
+/-- the repaired guard never fires on an `And` of more than two arguments -/
+theorem or2xor_guard_binary (a0 a1 b0 b1 : BExp) (r0 r1 : List BExp)
+    (h : or2xorFires Quirks.none [.and (a0 :: a1 :: r0), .and (b0 :: b1 :: r1)] = true) :
+    r0 = [] ∧ r1 = [] := by
+  simp only [or2xorFires, Quirks.none, Bool.false_or, Bool.and_eq_true, List.isEmpty_iff] at h
+  exact h.2
+
 /-! ## Non-vacuity -/
 
 /-- the table entry (3, 1): three iterations, P(solution) = 1655872 / 2097152 ≈ 0.7896 -/
